@@ -5,7 +5,7 @@
 From TP Require Import PSpecStep.
 
 Definition cexA_cfg : config :=
-  {| cf_size := Fin 1; cf_kind := KSimple; cf_bad := false; cf_w := default_w;
+  {| cf_size := Fin 1; cf_kind := KSimple; cf_bad := []; cf_w := default_w;
      cf_ecb := CbNone; cf_ccb := CbNone |}.
 
 Definition cexA_s : state := set_res (init cexA_cfg) (RErr ErrTaskNotFound).
